@@ -17,14 +17,15 @@ def directed(rng: random.Random, tier: str):
              -1, -10000, -10001, 2**31 - 1, -2**31, C.MT["TIMING_MESSAGE"], C.MT["FAILED_MESSAGE"], C.MT["ACKNOWLEDGE"]]
     for t in types:
         for nb in ([-2**31, -1, 0, 2**20, 2**20 + 1, 2**31 - 1] if tier == "thorough" else [-1, 0, 2**20 + 1]):
-            if nb == 0 and t in (C.MT["SUBSCRIBE"], C.MT["CONNECT"], C.MT["CONNECT_V2"]):
+            if nb in (0, 2**20) and t in (C.MT["SUBSCRIBE"], C.MT["CONNECT"], C.MT["CONNECT_V2"]):
                 continue   # a control frame shorter than its definition is decoded from stale buffer bytes: not modelled
+                           # (and one declaring 1 MiB would need 1 MiB of control payload: nothing to learn)
             hs = C.History(loglevel=rng.choice([60, 20]), timing=True, tag="hdr-boundary")
             hs.round([], [], 0, accept=True)
             hs.round([], [], 0, accept=True)
             hs.round([(1, hs.sub("sub", C.ALL))], [1, 2], 0)
             if nb == 2**20:
-                f = hs.publish(t, bytes(2**20)) if t not in (C.MT["SUBSCRIBE"], C.MT["CONNECT"], C.MT["CONNECT_V2"]) else hs.raw(t, 0)
+                f = hs.publish(t, bytes(2**20))
             else:
                 f = hs.raw(t, nb, src_mod=rng.choice(I16), src_host=rng.choice(I16), dst_mod=rng.choice(I16),
                            dst_host=rng.choice(I16), count=rng.choice(I32))
